@@ -121,7 +121,10 @@ def sk_items(F, b, opaque, ren=None, param_terms=None):
                 else:
                     items.add(("cmp", repr(normalize(canon(W.expand(a[1])))), a[2]))
         elif k == "Binary" and n["op"] in ("<<", ">>", "&"):
-            add("bit", W.T.term(n), W)
+            bt_ = W.T.term(n)
+            # only what still is a bit operation after canonicalisation (`x >> lg(BITS)` is the division `x / BITS`)
+            if bt_[0] == "op" and bt_[1] in ("<<", ">>", "&"):
+                add("bit", bt_, W)
         elif k == "Index":
             add("idx", W.T.term(n["i"]), W)
         elif k == "MethodCall" and n["name"] in ("get_unchecked", "get_unchecked_mut"):
